@@ -23,6 +23,9 @@ from concurrent.futures import ThreadPoolExecutor
 ROOT = "/verif"
 REPO = "/repo"
 CACHE = os.environ.get("VERIF_CACHE") or os.path.join(ROOT, ".cache")
+# incremental compilation state is useless here (generated probe crates are rebuilt from scratch under new names)
+# and grew to 23 GB; every cargo invocation of every check inherits this
+os.environ["CARGO_INCREMENTAL"] = "0"
 COQ = os.path.join(ROOT, "coq")
 HARNESS = os.path.join(ROOT, "harness")
 TARGET = os.path.join(CACHE, "target")
@@ -110,6 +113,7 @@ members = [%s]
 
 [profile.dev]
 debug = 0
+incremental = false
 opt-level = 0
 overflow-checks = true
 debug-assertions = true
